@@ -195,6 +195,32 @@ func spacesFor(name string, thorough bool) []space {
 			})
 		},
 	})
+	// wildcard: every alphabet string of length 1..wl with one position replaced
+	// by each of the 256 byte values (an escape followed or interrupted by any byte).
+	wl := 4
+	if thorough {
+		wl = 5
+	}
+	sp = append(sp, space{
+		name: "wildcard", chunks: len(alpha),
+		gen: func(chunk int, emit func([]byte)) {
+			tmp := make([]byte, 0, 16)
+			words(alpha, wl, chunk, make([]byte, 0, 16), func(w []byte) {
+				for pos := range w {
+					tmp = append(tmp[:0], w...)
+					// position 0 of a word is varied only in the chunk of its own first symbol
+					// (the 256 values are the same for every first symbol): do it in chunk 0.
+					if pos == 0 && chunk != 0 {
+						continue
+					}
+					for b := 0; b < 256; b++ {
+						tmp[pos] = byte(b)
+						emit(tmp)
+					}
+				}
+			})
+		},
+	})
 	if name == "htmlEntityDecode" {
 		n := 3
 		if thorough {
